@@ -207,7 +207,7 @@ pub fn run(tier: Tier, seed: u64, only: Option<usize>) -> i32 {
         "extensions_reported",
     ];
     let cells = all_cells(true);
-    let per_cell = tier.pick(3, 200);
+    let per_cell = tier.pick(30, 600);
     let n = cells.len() * per_cell;
     rep.extras.insert("cells_total".into(), json!(cells.len()));
     match only {
